@@ -50,16 +50,34 @@ func Enable(runtime *goja.Runtime) {
 }
 
 func Bytes(r *goja.Runtime, v goja.Value) []byte {
+	if o, isObject := v.(*goja.Object); isObject && !isBinary(o) {
+		// Converting any other object is not safe: an array-like is exported element by element up to whatever
+		// "length" it claims (makeslice panics or exhausts memory), and stringifying an object may call a Buffer
+		// method (toString) on the same receiver again, without end.
+		panic(errors.NewTypeError(r, errors.ErrCodeInvalidArgType, "The value must be a Buffer, a TypedArray or an ArrayBuffer."))
+	}
 	var b []byte
 	err := r.ExportTo(v, &b)
 	if err != nil {
-		if _, isObject := v.(*goja.Object); isObject {
-			// stringifying an object may call a Buffer method (toString) on the same receiver again, without end
-			panic(errors.NewTypeError(r, errors.ErrCodeInvalidArgType, "The value must be a Buffer, a TypedArray or an array of bytes."))
-		}
 		return []byte(v.String())
 	}
 	return b
+}
+
+// isBinary reports whether o is an ArrayBuffer or a typed array (Buffer included).
+func isBinary(o *goja.Object) bool {
+	t := o.ExportType()
+	if t == reflectTypeArrayBuffer {
+		return true
+	}
+	if t != nil && t.Kind() == reflect.Slice {
+		switch t.Elem().Kind() {
+		case reflect.Int8, reflect.Int16, reflect.Int32, reflect.Int64, reflect.Uint8, reflect.Uint16, reflect.Uint32,
+			reflect.Uint64, reflect.Float32, reflect.Float64:
+			return true
+		}
+	}
+	return false
 }
 
 func mod(r *goja.Runtime) *goja.Object {
